@@ -316,9 +316,9 @@ def attach_all(run, rt):
     import cnvlib.commands as K
     from cnvlib.cnary import CopyNumArray as CNA
     run._orig_segmetrics = S.do_segmetrics
-    traced = [("segmetrics.do_segmetrics", S.do_segmetrics), ("segmetrics.calc_intervals", S.calc_intervals), ("segmetrics.make_pi_func", S.make_pi_func),
-              ("segmetrics.confidence_interval_bootstrap", S.confidence_interval_bootstrap), ("bintest.do_bintest", B.do_bintest),
-              ("bintest.z_prob", B.z_prob), ("bintest.p_adjust_bh", B.p_adjust_bh), ("cnary.residuals", CNA.residuals)]
+    traced = [("segmetrics.do_segmetrics", rt.opt(S, "do_segmetrics")), ("segmetrics.calc_intervals", rt.opt(S, "calc_intervals")), ("segmetrics.make_pi_func", rt.opt(S, "make_pi_func")),
+              ("segmetrics.confidence_interval_bootstrap", rt.opt(S, "confidence_interval_bootstrap")), ("bintest.do_bintest", rt.opt(B, "do_bintest")),
+              ("bintest.z_prob", rt.opt(B, "z_prob")), ("bintest.p_adjust_bh", rt.opt(B, "p_adjust_bh")), ("cnary.residuals", rt.opt(CNA, "residuals"))]
     rt.attach(S, "do_segmetrics", name="segmetrics.do_segmetrics", pre=pre_segmetrics, post=post_segmetrics, on_exc=exc_segmetrics, also=[(K, "do_segmetrics")])
     rt.attach(B, "do_bintest", name="bintest.do_bintest", pre=pre_bintest, post=post_bintest, also=[(K, "do_bintest")])
     rt.attach(B, "p_adjust_bh", name="bintest.p_adjust_bh", pre=pre_bh, post=post_bh)
